@@ -284,9 +284,18 @@ class Protocol(Contract):
     def bounded_inputs(self, tier):
         return iter(())  # maybeDeferred cannot be intercepted natively; the real protocol is exercised by Cadence
 
-    ensures = dict(protocol=_proto)
+    def _final_before_firing(S):
+        # start()'s Deferred runs application callbacks (which may start() the loop again and get a new Deferred):
+        # the LoopingCall must have finished its own bookkeeping before it fires it (seeded change C10-3)
+        return band(*[band(e.snap.lc._deferred is None, e.snap.lc.running is False, e.snap.lc.call is None)
+                      for e in S.trace if e.name.startswith("start-deferred")])
+
+    ensures = dict(protocol=_proto, state_is_final_when_the_start_deferred_fires=_final_before_firing)
     canaries = [("if self.running:\n                self._scheduleFrom(self.clock.seconds())", "if True:\n                self._scheduleFrom(self.clock.seconds())",
-                 "protocol")]
+                 "protocol"),
+                ("            d, self._deferred = self._deferred, None\n            assert d is not None\n            d.errback(failure)",
+                 "            d = self._deferred\n            assert d is not None\n            d.errback(failure)\n            self._deferred = None",
+                 "state_is_final_when_the_start_deferred_fires")]
 
 
 class StartGuards(Contract):
@@ -425,8 +434,97 @@ class Cadence(Bounded):
         return None
 
 
+class RestartFromCompletion(Bounded):
+    prop = "C10"
+    title = "LoopingCall restarted from the callback / errback of start()'s Deferred: the second run completes exactly once too"
+    scope = ("first run ended by stop() / a raising function / a failing function Deferred, after 0..3 calls; restarted "
+             "inside the completion callback (now True/False); second run advanced 0..3 intervals and ended by stop() / "
+             "failure; intervals {0.5, 1}: exhaustive")
+    functions = ["LoopingCall.start", "LoopingCall.__call__", "LoopingCall.stop"]
+
+    def cases(self, tier, rng):
+        for interval in (0.5, 1.0):
+            for end1 in ("stop", "raise", "deferred-fails"):
+                for n1 in range(0, 4):
+                    for now2 in (False, True):
+                        for n2 in range(0, 4):
+                            for end2 in ("stop", "raise"):
+                                yield (interval, end1, n1, now2, n2, end2)
+
+    def check(self, case):
+        interval, end1, n1, now2, n2, end2 = case
+        clock = task.Clock()
+        calls = []
+        mode = ["ok"]
+        pend = [None]
+
+        def fn():
+            calls.append(clock.seconds())
+            if mode[0] == "raise":
+                mode[0] = "ok"
+                raise RuntimeError("boom")
+            if mode[0] == "deferred":
+                mode[0] = "ok"
+                pend[0] = defer.Deferred()
+                return pend[0]
+
+        lc = LoopingCall(fn)
+        lc.clock = clock
+        first, second, d2s = [], [], []
+
+        def restart(res):
+            first.append(res)
+            d2 = lc.start(interval, now=now2)
+            d2.addBoth(second.append)
+            d2s.append(d2)
+            return None
+
+        d1 = lc.start(interval, now=False)
+        d1.addBoth(restart)
+        clock.pump([interval] * n1)
+        if end1 == "stop":
+            lc.stop()
+        elif end1 == "raise":
+            mode[0] = "raise"
+            clock.advance(interval)
+        else:
+            mode[0] = "deferred"
+            clock.advance(interval)
+            p, pend[0] = pend[0], None
+            p.errback(RuntimeError("late"))
+        if len(first) != 1:
+            return "first run: start()'s Deferred fired %d time(s)" % len(first)
+        if not lc.running:
+            return "restart inside the completion callback did not leave the loop running"
+        if second:
+            return "second run's Deferred fired before the second run ended"
+        before = len(calls)
+        clock.pump([interval] * n2)
+        if len(calls) - before != n2:
+            return "second run made %d call(s) in %d interval(s)" % (len(calls) - before, n2)
+        if end2 == "stop":
+            try:
+                lc.stop()
+            except Exception as e:
+                return "stop() of the second run raised %r" % (e,)
+        else:
+            mode[0] = "raise"
+            clock.advance(interval)
+        if len(second) != 1:
+            return "second run: start()'s Deferred fired %d time(s) after %s" % (len(second), end2)
+        if end2 == "stop" and second[0] is not lc:
+            return "second run: Deferred fired with %r" % (second[0],)
+        if end2 == "raise" and not isinstance(second[0], Failure):
+            return "second run: Deferred not errbacked"
+        n = len(calls)
+        clock.pump([interval] * 3)
+        if len(calls) != n:
+            return "function called after the second run ended"
+        return None
+
+
 CONTRACTS = [ScheduleFrom, IntervalOf, Counter, Protocol, StartGuards]
-BOUNDED = [Cadence]
+BOUNDED = [Cadence, RestartFromCompletion]
 NOTES = dict(
     explanation="Boundary arithmetic of LoopingCall proved over the reals with explicit integer quotients; scheduling "
                 "protocol proved per transition; Clock-driven histories bounded.",
@@ -443,7 +541,8 @@ MANIFEST = dict(
          "_intervalOf equals the number of elapsed boundaries; withCount's counter delivers exactly the boundaries "
          "since the last delivery and advances its reference time only then, so counts telescope; the "
          "start/__call__/stop/reset transitions schedule the next call only from the completion callback and fire "
-         "start()'s Deferred exactly once. Clock-driven random histories with latencies, failures, stop and reset "
+         "start()'s Deferred exactly once, with the loop's own state already final at that moment (so a loop started "
+         "again from that Deferred's callbacks keeps its new Deferred). Clock-driven random histories with latencies, failures, stop and reset "
          "are replayed on the real class against the cadence rules (bounded).",
     note="Trusted: pyvc, SMT solvers (nonlinear only through an explicit integer quotient times the interval), A-float "
          "(floats as reals: the absorption branch is unreachable), clock call-outs. Bounded tier: seeded random "
